@@ -113,3 +113,119 @@ Proof.
     rewrite IH, bm_value_entry2. reflexivity.
   - apply getValue2D_flat_lemma.
 Qed.
+
+(* ---------------------------------------------------------------- 2D plusEqual ---- *)
+Lemma zipk_length : forall (X Y : Type) (op : X -> Y -> X) a (b : list Y), length (zipk op a b) = length a.
+Proof. intros X Y op a; induction a as [|x a IH]; intros [|y b]; cbn [zipk length]; try reflexivity. rewrite IH. reflexivity. Qed.
+
+Lemma zipk_nth : forall (X Y : Type) (op : X -> Y -> X) a (b : list Y) (dx : X) (dy : Y) i,
+  (i < length a)%nat -> (i < length b)%nat -> nth i (zipk op a b) dx = op (nth i a dx) (nth i b dy).
+Proof.
+  intros X Y op a; induction a as [|x a IH]; intros [|y b] dx dy i Ha Hb; cbn [length] in *; try lia.
+  cbn [zipk]. destruct i; cbn [nth]; [reflexivity| apply IH; lia].
+Qed.
+
+Lemma zipk_Forall_length : forall (Y : Type) (op : list Q -> Y -> list Q) a (b : list Y) n,
+  Forall (fun row => length row = n) a -> (forall row y, length (op row y) = length row) ->
+  Forall (fun row => length row = n) (zipk op a b).
+Proof.
+  intros Y op a; induction a as [|x a IH]; intros [|y b] n H Hop; cbn [zipk]; try assumption.
+  inversion H; subst. constructor; [rewrite Hop; reflexivity | apply IH; assumption].
+Qed.
+
+Definition bm_ne (b : bm) : Prop := bmTag b <> [] /\ bmActionTag b <> [].
+
+Lemma plusEqualSubset2D_value : forall SS AA ret rhs s a,
+  bm_wf SS AA ret -> bm_wf SS AA rhs -> bm_ne ret ->
+  subseq (bmTag rhs) (bmTag ret) -> subseq (bmActionTag rhs) (bmActionTag ret) ->
+  in_space SS s -> in_space AA a ->
+  bm_value SS AA (plusEqualSubset2D SS AA ret rhs) s a = bm_value SS AA ret s a + bm_value SS AA rhs s a
+  /\ bm_wf SS AA (plusEqualSubset2D SS AA ret rhs) /\ bm_ne (plusEqualSubset2D SS AA ret rhs).
+Proof.
+  intros SS AA ret rhs s a [Ht [Hat [Hrows Hcols]]] [Ht' [Hat' [Hrows' Hcols']]] [Hne Hane] Hsub Hasub Hs Ha.
+  destruct (partial_roundtrip_factors_lemma (bmTag ret) SS s (in_space_sub SS s _ Hs Ht)) as [Hrr Hr].
+  destruct (partial_roundtrip_factors_lemma (bmActionTag ret) AA a (in_space_sub AA a _ Ha Hat)) as [Hcr Hc].
+  pose proof (tag_ok_keys_pos SS s _ Hs Ht) as Hk. pose proof (tag_ok_keys_pos AA a _ Ha Hat) as Hka.
+  set (r := toIndexPartial (bmTag ret) SS s) in *. set (cidx := toIndexPartial (bmActionTag ret) AA a) in *.
+  assert (Hrowlen : length (nth r (bmVals ret) []) = factorSpacePartial (bmActionTag ret) AA).
+  { rewrite Forall_forall in Hcols. apply Hcols. apply nth_In. rewrite Hrows. exact Hr. }
+  unfold plusEqualSubset2D.
+  destruct ((length (bmTag ret) =? length (bmTag rhs))%nat && (length (bmActionTag ret) =? length (bmActionTag rhs))%nat)%bool eqn:E.
+  - apply andb_prop in E. destruct E as [E1 E2]. apply Nat.eqb_eq in E1. apply Nat.eqb_eq in E2.
+    assert (Heq : bmTag rhs = bmTag ret) by (apply subseq_same_length; [assumption|lia]).
+    assert (Haeq : bmActionTag rhs = bmActionTag ret) by (apply subseq_same_length; [assumption|lia]).
+    split; [|split].
+    + unfold bm_value, mat_get. cbn [bmTag bmActionTag bmVals]. rewrite Heq, Haeq. fold r. fold cidx.
+      rewrite (zipk_nth _ _ (zipk Qplus) _ _ [] []) by (try rewrite Hrows; try rewrite Hrows', Heq; assumption).
+      assert (Hrowlen' : length (nth r (bmVals rhs) []) = factorSpacePartial (bmActionTag ret) AA).
+      { rewrite Forall_forall in Hcols'. rewrite <- Haeq. apply Hcols'. apply nth_In. rewrite Hrows', Heq. exact Hr. }
+      apply (zipk_nth _ _ Qplus _ _ 0 0); [rewrite Hrowlen | rewrite Hrowlen']; assumption.
+    + unfold bm_wf. cbn [bmTag bmActionTag bmVals]. rewrite zipk_length. repeat split; try assumption.
+      apply zipk_Forall_length; [assumption| intros; apply zipk_length].
+    + split; assumption.
+  - split; [|split].
+    + unfold bm_value at 1, mat_get. cbn [bmTag bmActionTag bmVals]. fold r. fold cidx.
+      rewrite (zipk_nth _ _ _ _ _ [] (@nil nat)).
+      * rewrite (zipk_nth _ _ _ _ _ 0 (@nil nat)).
+        -- rewrite !enum_assignments_spec by assumption.
+           rewrite (nth_indep (map (toFactorsPartial (bmTag ret) SS) (seq 0 (factorSpacePartial (bmTag ret) SS))) [] (toFactorsPartial (bmTag ret) SS 0)) by (rewrite map_length, seq_length; assumption).
+           rewrite (nth_indep (map (toFactorsPartial (bmActionTag ret) AA) (seq 0 (factorSpacePartial (bmActionTag ret) AA))) [] (toFactorsPartial (bmActionTag ret) AA 0))
+             by (rewrite map_length, seq_length; assumption).
+           rewrite !map_nth, !seq_nth by assumption. cbn [Nat.add]. rewrite Hrr, Hcr.
+           rewrite !idx_of_subseq by assumption. reflexivity.
+        -- rewrite Hrowlen; assumption.
+        -- rewrite enum_assignments_spec, map_length, seq_length by assumption. assumption.
+      * rewrite Hrows; assumption.
+      * rewrite enum_assignments_spec, map_length, seq_length by assumption. assumption.
+    + unfold bm_wf. cbn [bmTag bmActionTag bmVals]. rewrite zipk_length. repeat split; try assumption.
+      apply zipk_Forall_length; [assumption| intros; apply zipk_length].
+    + split; assumption.
+Qed.
+
+Definition fm_ok (SS AA : list nat) (fm : fmat) : Prop := Forall (fun b => bm_wf SS AA b /\ bm_ne b) fm.
+
+Theorem plusEqual2D_flat_lemma : forall SS AA fm b s a,
+  fm_ok SS AA fm -> bm_wf SS AA b -> bm_ne b -> in_space SS s -> in_space AA a ->
+  flat2 SS AA (plusEqual2D SS AA fm b) s a == flat2 SS AA fm s a + entry2 SS AA b s a
+  /\ fm_ok SS AA (plusEqual2D SS AA fm b).
+Proof.
+  intros SS AA fm b s a Hfm Hb Hbne Hs Ha. unfold plusEqual2D.
+  assert (Hgo : forall fm, fm_ok SS AA fm ->
+            match plusEqual2D_go SS AA b fm with
+            | Some r => flat2 SS AA r s a == flat2 SS AA fm s a + entry2 SS AA b s a /\ fm_ok SS AA r
+            | None => True
+            end).
+  { clear fm Hfm. induction fm as [|cur rest IH]; intros Hfm; cbn [plusEqual2D_go]; [exact I|].
+    inversion Hfm as [|? ? [Hc Hcne] Hrest]; subst.
+    set (bigger := (length (bmTag b) <=? length (bmTag cur))%nat).
+    destruct ((length (bmActionTag (if bigger then b else cur)) <=? length (bmActionTag (if bigger then cur else b)))%nat
+              && sorted_contains (bmActionTag (if bigger then cur else b)) (bmActionTag (if bigger then b else cur))
+              && sorted_contains (bmTag (if bigger then cur else b)) (bmTag (if bigger then b else cur)))%bool eqn:E.
+    - apply andb_prop in E. destruct E as [E E3]. apply andb_prop in E. destruct E as [_ E2].
+      apply sorted_contains_subseq in E2. apply sorted_contains_subseq in E3.
+      destruct bigger.
+      + destruct (plusEqualSubset2D_value SS AA cur b s a Hc Hb Hcne E3 E2 Hs Ha) as [Hv [Hw Hn]].
+        cbn [flat2]. rewrite <- !bm_value_entry2, Hv. split; [lra | constructor; [split; assumption | assumption]].
+      + destruct (plusEqualSubset2D_value SS AA b cur s a Hb Hc Hbne E3 E2 Hs Ha) as [Hv [Hw Hn]].
+        cbn [flat2]. rewrite <- !bm_value_entry2, Hv. split; [lra | constructor; [split; assumption | assumption]].
+    - specialize (IH Hrest). destruct (plusEqual2D_go SS AA b rest) as [r|]; [|exact I].
+      destruct IH as [H1 H2]. cbn [flat2]. rewrite H1. split; [lra | constructor; [split; assumption | assumption]]. }
+  specialize (Hgo fm Hfm). destruct (plusEqual2D_go SS AA b fm) as [r|].
+  - exact Hgo.
+  - split.
+    + induction fm as [|c t IH]; cbn [app flat2]; [lra|]. inversion Hfm; subst. rewrite IH by assumption. lra.
+    + unfold fm_ok in *. apply Forall_app. split; [assumption | constructor; [split; assumption | constructor]].
+Qed.
+
+Theorem plusEqualFM_flat_lemma : forall SS AA rhs fm s a,
+  fm_ok SS AA fm -> fm_ok SS AA rhs -> in_space SS s -> in_space AA a ->
+  flat2 SS AA (plusEqualFM SS AA fm rhs) s a == flat2 SS AA fm s a + flat2 SS AA rhs s a
+  /\ fm_ok SS AA (plusEqualFM SS AA fm rhs).
+Proof.
+  intros SS AA rhs; induction rhs as [|b t IH]; intros fm s a Hfm Hr Hs Ha; unfold plusEqualFM in *; cbn [fold_left flat2].
+  - split; [lra|assumption].
+  - inversion Hr as [|? ? [Hb Hbne] Ht]; subst.
+    destruct (plusEqual2D_flat_lemma SS AA fm b s a Hfm Hb Hbne Hs Ha) as [G1 G2].
+    destruct (IH (plusEqual2D SS AA fm b) s a G2 Ht Hs Ha) as [G3 G4].
+    split; [rewrite G3, G1; lra | assumption].
+Qed.
